@@ -10,7 +10,7 @@ META = {
     "property": "C09",
     "proof_modules": ["PyodaProofs.C09", "PyodaProofs.C09Instances", "PyodaProofs.C09Generic", "PyodaProofs.C09Between",
                       "PyodaProofs.C09DateTime", "PyodaProofs.C09Badi", "PyodaProofs.C09Hebrew", "PyodaProofs.C09HebrewMonths",
-                      "PyodaProofs.C09All", "PyodaProofs.C09MonthStart", "PyodaProofs.C09Maximal"],
+                      "PyodaProofs.C09All", "PyodaProofs.C09MonthStart", "PyodaProofs.C09Maximal", "PyodaProofs.GenAgreeC09"],
     "drivers": ["drv_datearith"],
     "theorems": [
         "Pyoda.C09.plusDays_exact", "Pyoda.C09.plusWeeks_exact", "Pyoda.C09.fastPath_eq_slowPath",
@@ -37,8 +37,44 @@ META = {
         "Pyoda.C09.monthStart_badi", "Pyoda.C09.monthStart_hebrew", "Pyoda.C09.monthStart_all",
         "Pyoda.C09.coarse_max_at", "Pyoda.C09.yearsBetween_maximal_hebrew", "Pyoda.C09.yearsBetween_maximal_badi",
         "Pyoda.C09.badi_addMonths_key", "Pyoda.C09.monthsBetween_maximal_badi",
+        # agreement of the definitions generated from the Python source (tools/py2lean.py) with the model
+        "Pyoda.GenAgree.C09.gen_Calc_minYear_eq", "Pyoda.GenAgree.C09.gen_Calc_maxYear_eq",
+        "Pyoda.GenAgree.C09.gen_Calc_minYearOf_eq", "Pyoda.GenAgree.C09.gen_Calc_maxYearOf_eq",
+        "Pyoda.GenAgree.C09.gen_Regular_monthsInYear_eq", "Pyoda.GenAgree.C09.gen_Regular_setYear_eq",
+        "Pyoda.GenAgree.C09.gen_Regular_addMonths_eq", "Pyoda.GenAgree.C09.gen_Regular_monthsBetween_eq",
+        "Pyoda.GenAgree.C09.gen_Heb_isLeap_eq", "Pyoda.GenAgree.C09.gen_Heb_civilToScriptural_eq",
+        "Pyoda.GenAgree.C09.gen_Heb_scripturalToCivil_eq", "Pyoda.GenAgree.C09.gen_HebCalc_calendarToCivilMonth_eq",
+        "Pyoda.GenAgree.C09.gen_HebCalc_calendarToScripturalMonth_eq",
+        "Pyoda.GenAgree.C09.gen_HebCalc_civilToCalendarMonth_eq",
+        "Pyoda.GenAgree.C09.gen_HebCalc_scripturalToCalendarMonth_eq", "Pyoda.GenAgree.C09.gen_HebCalc_isLeap_eq",
+        "Pyoda.GenAgree.C09.gen_HebCalc_monthsInYear_eq", "Pyoda.GenAgree.C09.gen_HebCalc_compare_eq",
+        "Pyoda.GenAgree.C09.gen_HebCalc_addMonths_loop1_eq", "Pyoda.GenAgree.C09.gen_HebCalc_addMonths_loop2_eq",
+        "Pyoda.GenAgree.C09.gen_HebCalc_addMonths_eq", "Pyoda.GenAgree.C09.gen_HebCalc_setYear_eq",
+        "Pyoda.GenAgree.C09.gen_Badi_isInAyyamiHa_eq", "Pyoda.GenAgree.C09.gen_Badi_addMonths_eq",
+        "Pyoda.GenAgree.C09.gen_Badi_monthsBetween_eq", "Pyoda.GenAgree.C09.gen_Badi_setYear_eq",
+        "Pyoda.GenAgree.C09.gen_CalendarSystem_minDays_eq", "Pyoda.GenAgree.C09.gen_CalendarSystem_maxDays_eq",
+        "Pyoda.GenAgree.C09.gen_CalendarSystem_calculator_eq",
+        "Pyoda.GenAgree.C09.gen_CalendarSystem_getDaysSinceEpoch_eq", "Pyoda.GenAgree.C09.gen_LocalDate_ofYmdc_eq",
+        "Pyoda.GenAgree.C09.gen_LocalDate_calendarOrdinal_eq", "Pyoda.GenAgree.C09.gen_LocalDate_calendar_eq",
+        "Pyoda.GenAgree.C09.gen_LocalDate_year_eq", "Pyoda.GenAgree.C09.gen_LocalDate_month_eq",
+        "Pyoda.GenAgree.C09.gen_LocalDate_day_eq", "Pyoda.GenAgree.C09.gen_LocalDate_yearMonthDay_eq",
+        "Pyoda.GenAgree.C09.gen_LocalDate_daysSinceEpoch_eq",
+        "Pyoda.GenAgree.C09.gen_CalendarSystem_ymdcFromDays_eq", "Pyoda.GenAgree.C09.gen_LocalDate_ofDays_eq",
+        "Pyoda.GenAgree.C09.gen_FixedField_add_eq", "Pyoda.GenAgree.C09.gen_FixedField_unitsBetween_eq",
+        "Pyoda.GenAgree.C09.gen_FixedField_unitsBetween_error", "Pyoda.GenAgree.C09.gen_YearsField_add_eq",
+        "Pyoda.GenAgree.C09.gen_MonthsField_add_eq", "Pyoda.GenAgree.C09.gen_MonthsField_unitsBetween_eq",
+        "Pyoda.GenAgree.C09.gen_addMonths_regular", "Pyoda.GenAgree.C09.gen_addMonths_hebrew",
+        "Pyoda.GenAgree.C09.gen_addMonths_badi",
     ],
     "trusted_base": [
+        "translator tie (tools/py2lean.py): _RegularYearMonthDayCalculator (_set_year, _add_months, _months_between), the Hebrew overrides (_add_months with its two while loops, _set_year, compare, the four month-numbering converters) "
+        "and the Badi overrides (_add_months, _months_between, _set_year), and the date period fields _FixedLengthDatePeriodField.add/units_between (both fast paths and the general path), _YearsPeriodField.add, "
+        "_MonthsPeriodField.add/units_between with the LocalDate/CalendarSystem accessors they use are re-translated from the current source into lean/PyodaGen/C09.lean on every run and proved equal to "
+        "PyodaModel/DateArith.lean (PyodaProofs/GenAgreeC09.lean). Trusted there: the translator's semantics (self-test of C03); objects as records (lean/PyodaGen/Objects.lean; the calculator's virtual members as "
+        "function-valued fields, instantiated with the model's range-checked functions); _YearMonthDay as a plain triple whose comparison operators compare (y-1)*2048+(m-1)*64+(d-1) (disjoint bit fields: C12 unpack_pack); "
+        "the packing helpers (_with_calendar(_ordinal), _YearMonthDayCalendar._ctor, CalendarSystem._ordinal/_for_ordinal: an ordinal is represented by its calendar); _get_days_in_month / _HebrewScripturalCalculator._days_in_month / "
+        "_get_days_in_ayyami_ha / Period._internal_days_between as abstract callees instantiated with the model's functions (tied by the C01 groups); M != 0 months per year; Decimal-domain bounds for units_between. "
+        "Outside the tie: Hebrew _months_between (float estimate, try/except), _YearsPeriodField.units_between (LocalDate comparison), Period.between itself",
         "calendar tables enter the theorems through C01's well-formedness predicate WF: symbolic C01 instances for ISO/Gregorian, Julian, Coptic, the 8 Islamic calendars, Persian simple and arithmetic; for Hebrew civil/scriptural, Persian astronomical, Um Al Qura and Badi the hypothesis structure Pyoda.C09.Evaluated (wfCheck = true via C01's wfCheck_sound, plus yearLenCheck = true for the two Hebrew calendars) is discharged by EVALUATION on the compiled driver on every run (ops cal.wf 4|5|8|17|18, date.wf 4|5; oracle 'evaluated-hypotheses') - the Lean compiler is trusted for that step",
         "Decimal-based truncating division is exact below 10^27 (sampled by C03's prelude suite); amounts beyond are outside the model (!dom)",
         "LocalDateTime + Period reaches position posDT(start date + date part, start time) + time total: the carry arithmetic of LocalDateTime.plus is C10's subject; C09 states the between laws on positions of the local time line",
